@@ -111,6 +111,7 @@ def _extra_configs(tier):
     out.append({'block': 'AsynchronousMemory', 'aw': 1, 'dw': 2, 'rw': 1})     # read port narrower / wider than the cells
     out.append({'block': 'AsynchronousMemory', 'aw': 1, 'dw': 1, 'rw': 2})
     out.append({'block': 'AutoReset'})
+    out.append({'block': 'WideFanout', 'n': 20})
     out.append({'block': 'ClockSyncFSM'})
     for msg in ('Hi', 'abc', 'hello', 'sevench', 'Z'):
         out.append({'block': 'MsgSequencer', 'msg': msg})
@@ -219,6 +220,14 @@ def _build_extra(d):
         P.Not(hw, 'n0', a, O('r0', w))
         P.Add(hw, 'a0', a, a, O('r1', w))
         P.Reg(hw, 'g0', a, O('r2', w))
+    elif b == 'WideFanout':
+        # one wire read by many pins (a shared enable of a register bank, a select bit of a wide multiplexer)
+        a, en = I('a', 1), I('en')
+        for k in range(d['n']):
+            if k % 2:
+                P.Reg(hw, 'r%d' % k, a, O('q%d' % k, 1), enable=en)
+            else:
+                P.And2(hw, 'g%d' % k, a, en, O('q%d' % k, 1))
     elif b == 'AsynchronousMemory':
         aw, dw = d['aw'], d['dw']
         P.AsynchronousMemory(hw, 'dut', I('read_address', aw), I('write_address', aw), I('write'), O('readdata', d.get('rw', dw)), I('writedata', dw))
